@@ -8,7 +8,7 @@
    `amount < LIT`, `amount > LIT`, and ! & | over those.
    Not modelled: rule lines with a cost, `$account` / %(format) account names, deferred notes,
    assert/check/expr lines of a rule, amount expressions. *)
-From LedgerV Require Import Base.Prelude Base.Round Model.Amount Model.Xact.
+From LedgerV Require Import Base.Prelude Base.Round Gen.AutoXactRoot Model.Amount Model.Xact.
 Local Open Scope Z_scope.
 
 Inductive pstate := SUncleared | SCleared | SPending.          (* item_t::state_t *)
@@ -272,6 +272,16 @@ Definition realias (al : aliases) (full : str) : str :=
             end
   end.
 
+(* the alias table AS THE SECOND REGISTRATION SEES IT.  Whether extend_xact registers the line's
+   account with alias expansion active is read from the source on every run
+   (Gen/AutoXactRoot.src_extend_realias): active (finding F120) = every alias directive read so far;
+   switched off around the call (the repair) = the table stays as it started (empty) *)
+Definition alias_seen (n t : str) (al : aliases) : aliases :=
+  match src_extend_realias with
+  | ReAliasNever => al
+  | _ => alias_set n t al
+  end.
+
 Definition realias_line (al : aliases) (l : rule_line) : rule_line :=
   mkLine (realias al (rl_acct l)) (rl_kind l) (rl_amt l) (rl_state l).
 
@@ -304,7 +314,7 @@ Fixpoint process (ord : bool) (pl : pool) (al : aliases) (rules : list (rule * r
   match ds with
   | [] => []
   | DRule r :: ds' => process ord (learn_rule pl r) al (rules ++ [(r, rs_init)]) ds'
-  | DAlias n t :: ds' => process ord pl (alias_set n t al) rules ds'
+  | DAlias n t :: ds' => process ord pl (alias_seen n t al) rules ds'
   | DTxn t :: ds' =>
       let pl' := learn_posts pl (t_posts t) in
       let cp := cp_of pl' in
